@@ -65,6 +65,16 @@ def gen_case(seed):
     elif mode == "corrupt-first":
         sc["fates"]["corrupt_first"] = 0.3
     sc["mode"] = mode + ("+ku-rebind" if ku else "")
+    r6 = random.Random("c12-probe/%s" % seed)
+    if r6.random() < 0.2:
+        # path probes: packets with only probing frames (PATH_CHALLENGE, PADDING, NEW_CONNECTION_ID is left out because it
+        # would need a fresh sequence number) sealed with the client's keys and delivered to the server from an address
+        # the client is not using: they do not move the connection to that path, yet they are ack-eliciting
+        for i in range(r6.choice([1, 2, 3])):
+            t = round(0.6 + r6.random() * max(0.5, sc["fates"]["adv_seconds"]), 4)
+            sc["script"].append({"t": t, "side": "server", "op": "forge", "ptype": "1rtt", "from_alt": True,
+                                 "frames_hex": "1a" + "%016x" % r6.getrandbits(64) + r6.choice(["", "00" * 20])})
+        sc["script"].sort(key=lambda o: o["t"])
     r3 = random.Random("c12-late0rtt/%s" % seed)
     if r3.random() < 0.12:
         # directed: a resumed session whose 0-RTT datagram (early data written just after the first flight left) is held
@@ -123,7 +133,7 @@ def run_batch(batch):
         am = monitors.AckMonitor(check_timeliness=True)
         multi = {"n": 0}
         sim, ok = run_case(sc, [am], res, {"gen": "acks", "seeds": [seed]},
-                           counters=("ack_frames_checked", "acked_numbers_checked", "timeliness_obligations", "timeliness_met", "next_tx_obligations", "exempt"),
+                           counters=("ack_frames_checked", "acked_numbers_checked", "timeliness_obligations", "timeliness_met", "next_tx_obligations", "exempt", "exempt_not_opened", "opened_and_owed", "path_changes", "exempt_path_switched"),
                            nontrivial=lambda s: am.timeliness_met > 0 and am.ack_frames_checked > 5, sig_extra=(sc["mode"],))
         if ok:
             res.sample({"seed": seed, "mode": sc["mode"], "opts": sc["opts"], "fates": dict(sim.fates.counts), "ack_frames_checked": am.ack_frames_checked,
